@@ -271,14 +271,10 @@ func (w *response) Write(b []byte) (int, error) {
 	if isMulti {                                 // don't use buffered writer for muti-streamming writes it'll mix up streams
 		return msc.Write(b)
 	}
-	n, err := w.conn.buf.Writer.Write(b)
-	if err != nil {
-		return 0, err
-	}
-	if err = w.conn.buf.Writer.Flush(); err != nil {
-		return 0, err
-	}
-	return n, nil
+	// Every message used to be copied into the buffered writer and flushed at
+	// once, which bought nothing and broke callers that retry: a short write
+	// was reported as 0 bytes and left the bufio.Writer failing forever after.
+	return w.conn.rwc.Write(b)
 }
 
 // WriteStream of MultistreamWriter interface
